@@ -65,6 +65,7 @@ type Contract struct {
 	Behs     []*Behaviour
 	Props    []string // property ids this contract serves
 	Keeps    []string // ghost states assumed untouched by opaque callees
+	Opaque   map[string]bool // callees (by name) never inlined: treated by contract or as opaque/observer calls
 	Uses     []string // manual lemmas this unit may use
 }
 
@@ -102,7 +103,7 @@ type SpecFile struct {
 	Axioms    []*Axiom
 }
 
-var kwRe = regexp.MustCompile(`^(uses|manual|keeps|macro|ghost|func|requires|ensures|assigns|invariant|loop|behaviour|behavior|spec|axiom|lemma|decreases|inline|trusted|overflow|nopanic|props|panics|assert|rec)\b`)
+var kwRe = regexp.MustCompile(`^(opaque|uses|manual|keeps|macro|ghost|func|requires|ensures|assigns|invariant|loop|behaviour|behavior|spec|axiom|lemma|decreases|inline|trusted|overflow|nopanic|props|panics|assert|rec)\b`)
 
 var readsRe = regexp.MustCompile(`\s+reads\s*\{([^}]*)\}\s*`)
 
@@ -208,6 +209,16 @@ func ParseSpecFile(path, pkg string) (*SpecFile, error) {
 			if cur != nil {
 				for _, g := range splitTop(rest) {
 					cur.Keeps = append(cur.Keeps, strings.TrimSpace(g))
+				}
+			}
+		case "opaque":
+			// opaque F, G: calls of functions with these names are never inlined into this unit
+			if cur != nil {
+				if cur.Opaque == nil {
+					cur.Opaque = map[string]bool{}
+				}
+				for _, g := range splitTop(rest) {
+					cur.Opaque[strings.TrimSpace(g)] = true
 				}
 			}
 		case "behaviour", "behavior":
